@@ -28,6 +28,7 @@ The harness (speclib/c19_replay.py, full mode) intercepts the externals; an audi
 mutation happens outside an intercepted external, so that "every boundary" really is every boundary."""
 from __future__ import annotations
 
+import contextlib
 import functools
 import gzip
 import hashlib
@@ -877,6 +878,90 @@ def diff_store(got, want):
     return sorted(parts, key=lambda x: (rank[x.rsplit("-", 1)[0]], x))
 
 
+# ------------------------------------------------------------------------------------------------ resume into a sqlite store
+def gen_resume_db(tier, seed):
+    for cfg in ("3", "4", "sfx") + (("6",) if tier == "thorough" else ()):
+        n = len(CONFIGS[cfg])
+        for k in range(n + 1):
+            yield [cfg, [k]]
+        for a in range(n + 1):
+            for b in range(a, n + 1):
+                if (a + b) % 2 == 0 or tier == "thorough":
+                    yield [cfg, [a, b]]
+
+
+def _db_session(work, out, ids, mode, stop_at):
+    """one apply_to session writing to the sqlite store ``out``; interrupted before record number stop_at (None: not at all)"""
+    import cogent3.app.data_store as dsm
+    from cogent3 import get_app, open_data_store
+    old_master = dsm.is_master_process
+    dsm.is_master_process = lambda: True
+    try:
+        ins = open_data_store(pathlib.Path(work) / "in", suffix="fasta", mode="r")
+        outds = open_data_store(out, mode=mode)
+        writer = get_app("write_db", data_store=outds)
+        app = get_app("load_unaligned", format="fasta", moltype="dna") + get_app("min_length", length=MIN_LENGTH) + writer
+        klass, calls = type(writer), []
+        orig = klass.main
+
+        def main(self, data, identifier=None):
+            if stop_at is not None and len(calls) == stop_at:
+                raise _Interrupt()
+            calls.append(identifier)
+            return orig(self, data=data, identifier=identifier)
+        klass.main = main
+        try:
+            by_id = {pathlib.Path(str(m.unique_id)).name[:-len(".fasta")]: m for m in ins.completed}
+            app.apply_to([by_id[i] for i in ids], logger=False)
+            outcome = "return"
+        except _Interrupt:
+            outcome = "killed"
+        except Exception as e:
+            outcome = f"raise {type(e).__name__}: {str(e)[:120]}"
+        finally:
+            klass.main = orig
+            with contextlib.suppress(Exception):
+                outds.close()
+        return outcome, calls
+    finally:
+        dsm.is_master_process = old_master
+
+
+def contract_resume_db(case):
+    """interrupted apply_to sessions into a sqlite store, then one uninterrupted session in append mode: no session raises
+    because of a record, no finished input is processed again, and the store ends with every input exactly once"""
+    from cogent3 import open_data_store
+    cfg, stops = case
+    ids = CONFIGS[cfg]
+    want_files, want_nc = expected_store(ids)
+    want_done = sorted(k[:-len(".fasta")] for k in want_files if k.endswith(".fasta"))
+    work = tempfile.mkdtemp(prefix="c19d_", dir=TMPBASE)
+    try:
+        make_inputs(work, ids)
+        out = pathlib.Path(work) / "out.sqlitedb"
+        processed = []
+        for n, k in enumerate(list(stops) + [None]):
+            o, calls = _db_session(work, out, ids, "w" if n == 0 else "a", k)
+            if o.startswith("raise"):
+                where = "final-session" if k is None else "interrupted-session"
+                return ("fail", f"resume-db/{where}/apply_to-raises-{o.split()[1].rstrip(':')}",
+                        f"inputs {ids}, interruptions before records {stops}: session {n} -> {o}; processed so far {processed}")
+            again = sorted(set(calls) & set(processed))
+            if again:
+                return ("fail", "resume-db/finished-input-processed-again", f"inputs {ids}, interruptions {stops}: session {n} re-processed {again}")
+            processed += calls
+        ro = open_data_store(out, mode="r")
+        done = sorted(str(m.unique_id) for m in ro.completed)
+        notc = sorted(str(m.unique_id) for m in ro.not_completed)
+        ro.close()
+        if done != want_done or notc != sorted(want_nc):
+            return ("fail", "resume-db/final-store-differs", f"inputs {ids}, interruptions {stops}: completed {done} (want {want_done}), "
+                                                             f"not completed {notc} (want {sorted(want_nc)})")
+        return ("ok", any(k is not None and k < len(ids) for k in stops))
+    finally:
+        shutil.rmtree(work, ignore_errors=True)
+
+
 def contract_resume(case):
     res = _contract_resume(case)
     if res[0] == "fail" and len(case[1]) > 1:   # minimise: one of the interruptions alone may already do it
@@ -1000,6 +1085,16 @@ BOUNDED = {
                  "destination {absent, pre-existing} x {plain, .gz, .zip} where the writer accepts it",
         "rule": "a case = (call, initial destination); skipped when the call does not raise (the statement only speaks "
                 "about failing formatting); non-trivial when it raises",
+    },
+    "resume_db": {
+        "gen": gen_resume_db, "contract": contract_resume_db,
+        "functions": ["app.composable._apply_to", "app.io.write_db.main", "sqlite_data_store.DataStoreSqlite.write / "
+                      "write_not_completed / __contains__ / completed / not_completed"],
+        "bound": "the input configurations of 'resume' (incl. the one with suffix-related identifiers); load_unaligned + "
+                 "min_length + write_db into a DataStoreSqlite; one or two sessions interrupted before record k (every k; every "
+                 "second pair, thorough all pairs), then an uninterrupted append session",
+        "rule": "no session raises because of a record; a finished input is not processed again; the final store holds every "
+                "input exactly once (completed / not completed as the hand-written expectation says)",
     },
     "resume": {
         "gen": gen_resume, "contract": contract_resume, "shards": 16,
